@@ -160,7 +160,9 @@ Tr_C08_ontime(A, B) ==
     (TelRan(A, B) /\ SystemIdle(A)) =>
       LET due == {o \in ObsNames : A.obs[o].status = "WAITING" /\ A.obs[o].ast = NoneT
                                     /\ OCfg(o).est * K = B.now}
-      IN due # {} => \E o \in due : B.obs[o].ast = B.now
+          overdue == {o \in ObsNames : A.obs[o].status = "WAITING" /\ A.obs[o].ast = NoneT
+                                        /\ OCfg(o).est * K < B.now}
+      IN (due # {} /\ overdue = {}) => \E o \in due : B.obs[o].ast = B.now
 
 (* ------------------------------- C09 ------------------------------------ *)
 NewClaims(A, B) == {p \in LivePids(B, "TP") : B.procs[p].started
